@@ -24,7 +24,8 @@ class PadCollector(RefMatcher):
         return PadCollector(self.cd, self.u, self.side, self.sink)
 
     def m_pad(self, r, t):
-        self.sink.append((self.u, self.side, r[1], t))
+        b = self.un.fixed_bytes(t)
+        self.sink.append((self.u, self.side, r[1], t, b))
         self.nmatched += 1
 
 
@@ -62,10 +63,16 @@ def run(prog, rep):
             pc = PadCollector(cd, u, side, pads)
             pc.match(ref, normalise(terms, side))
     n_r = n_w = 0
-    for u, side, nbytes, t in pads:
+    for u, side, nbytes, t, covered in pads:
         f = u.writer if side == "w" else u.reader
         mod, fq = f.module.path.name, f.qualname
         node = t.stmt or t.node
+        if side == "r" and covered is not None and covered != nbytes:
+            # the term at the reserved position covers only part of the run: what follows it consumes reserved bytes as content
+            rep.fail("pad-no-flow", mod, fq, node, f"the layout reserves {nbytes} bytes here but the decoder's term covers {covered}: the remaining reserved bytes are consumed "
+                     "by the following read, whose value can decide or fail the decode")
+            n_r += 1
+            continue
         if side == "r":
             n_r += 1
             ph = getattr(t, "ph", None)
